@@ -110,6 +110,58 @@ def poly_identity(eq):
     return z3.is_rational_value(d) and d.numerator_as_long() == 0
 
 
+def poly_of(e):
+    """z3 real term -> {sorted tuple of atom names: Fraction coefficient} (own expansion)"""
+    def mul(p, q_):
+        out = {}
+        for m1, c1 in p.items():
+            for m2, c2 in q_.items():
+                m = tuple(sorted(m1 + m2))
+                out[m] = out.get(m, Fraction(0)) + c1 * c2
+        return out
+
+    def add(p, q_, sign=1):
+        out = dict(p)
+        for m, c in q_.items():
+            out[m] = out.get(m, Fraction(0)) + sign * c
+        return out
+
+    def rec(t):
+        if z3.is_rational_value(t) or z3.is_int_value(t):
+            return {(): sc.frac_of(t)}
+        k = t.decl().kind()
+        ch = t.children()
+        if k == z3.Z3_OP_ADD:
+            r = {}
+            for c in ch:
+                r = add(r, rec(c))
+            return r
+        if k == z3.Z3_OP_SUB:
+            r = rec(ch[0])
+            for c in ch[1:]:
+                r = add(r, rec(c), -1)
+            return r
+        if k == z3.Z3_OP_UMINUS:
+            return {m: -c for m, c in rec(ch[0]).items()}
+        if k == z3.Z3_OP_MUL:
+            r = {(): Fraction(1)}
+            for c in ch:
+                r = mul(r, rec(c))
+            return r
+        if k == z3.Z3_OP_POWER and z3.is_int_value(ch[1]) or (k == z3.Z3_OP_POWER and z3.is_rational_value(ch[1]) and sc.frac_of(ch[1]).denominator == 1):
+            n = int(sc.frac_of(ch[1]))
+            if n >= 0:
+                r = {(): Fraction(1)}
+                b = rec(ch[0])
+                for _ in range(n):
+                    r = mul(r, b)
+                return r
+        if k == z3.Z3_OP_TO_REAL:
+            return rec(ch[0])
+        return {(t.sexpr(),): Fraction(1)}
+    return {m: c for m, c in rec(e).items() if c != 0}
+
+
 class _Setup:
     """``with B.setup():`` -- scenario construction; an exception here is a
     harness/configuration error, never a verdict about the code under test."""
@@ -179,6 +231,45 @@ class SymB:
     def le(self, label, a, b):
         a, b = sc._lift(a), sc._lift(b)
         self.rec.obligation(label, (a <= b).e)
+
+    def close(self, label, a, b, rel=1e-9):
+        """a == b as polynomials in the symbolic inputs up to a relative perturbation
+        `rel` of every coefficient.  For code that bakes *rounded* float constants
+        (1/volume, 1/bin size) into its result: the exact rational value of such a
+        constant differs from the ideal one in the last bit.  Decided by expansion
+        into monomials (no solver call); recorded as a 'tolerant' obligation."""
+        fa, fb = _flat(a), _flat(b)
+        if len(fa) != len(fb):
+            self.rec.obligation(label + ":size", z3.BoolVal(False), note=f"sizes differ {len(fa)} vs {len(fb)}")
+            return
+        ok = True
+        for u, v in zip(fa, fb):
+            u, v = sc._lift(u), sc._lift(v)
+            if isinstance(u, SC) or isinstance(v, SC):
+                u, v = SC._c(u), SC._c(v)
+                pairs = [(u.r, v.r), (u.i, v.i)]
+            else:
+                pairs = [(u, v)]
+            for (x, y) in pairs:
+                if x.d is not None or y.d is not None:
+                    raise sc.HarnessError("close(): rational functions not supported")
+                pa, pb = poly_of(x.n), poly_of(y.n)
+                for m in set(pa) | set(pb):
+                    ca, cb = pa.get(m, Fraction(0)), pb.get(m, Fraction(0))
+                    if abs(ca - cb) > Fraction(rel) * max(abs(ca), abs(cb)):
+                        ok = False
+        self.rec.tolerant = getattr(self.rec, "tolerant", 0) + 1
+        self.rec.obligation(label + " [tolerant 1e-9: rounded float constants]", z3.BoolVal(ok))
+
+    def close_under(self, label, a, b, rel=1e-9):
+        """|a - b| <= rel * (|a| + |b|) under the current assumptions (solver obligation)"""
+        cs = []
+        for u, v in zip(_flat(a), _flat(b)):
+            u, v = sc._lift(u), sc._lift(v)
+            d = u - v
+            t = (abs(u) + abs(v)) * sc.SR(sc.q(Fraction(rel)))
+            cs.append(z3.And((d <= t).e, ((-d) <= t).e))
+        self.rec.obligation(label + " [tolerant 1e-9: rounded float constants]", z3.And(*cs) if len(cs) != 1 else cs[0], parts=cs)
 
     def is_true(self, label, flag):
         """concrete Python-level fact (types, domains, capability masks)"""
@@ -288,6 +379,12 @@ class ConcB:
         scale = max(np.max(np.abs(fa)), np.max(np.abs(fb)), 1e-300)
         if np.max(np.abs(fa - fb)) > self.rtol * scale:
             self.failed.append(label)
+
+    def close(self, label, a, b, rel=1e-9):
+        self.eq(label + " [tolerant 1e-9: rounded float constants]", a, b)
+
+    def close_under(self, label, a, b, rel=1e-9):
+        self.eq(label + " [tolerant 1e-9: rounded float constants]", a, b)
 
     def le(self, label, a, b):
         self.checked.append(label)
